@@ -100,7 +100,8 @@ def readConfig (fs : Path → Option Text) : Input → Except Err Read
   | .none => .ok (.lines [])
   | .list ls => .ok (.lines ls)
   | .tuple ls => .ok (.lines ls)
-  | .path _ => .error .typeError          -- `len(config)` on a `pathlib.Path` (see finding F91)
+  | .path _ => .error .typeError          -- `len(config)` on a `pathlib.Path` raises (finding F91); once
+                                          -- notes/proposed-fixes/C09-1.patch is in, this arm reads like `.str p`
   | .str s =>
     let n := (splitlines s).length
     if n = 1 then (readConfigFile fs s).map .lines
